@@ -3,6 +3,7 @@ package main
 import (
 	"fmt"
 	"sort"
+	"strings"
 
 	"pgregory.net/rapid"
 )
@@ -22,6 +23,7 @@ type profile struct {
 	scripts   []string
 	inputs    [][]int
 	fuel      int
+	noMethods  bool // generators are plain functions only
 	keepParams bool // parameters a, b are never shadowed
 	noEv      bool // no trace events inside generators (goroutine-safe programs, C14 parallel)
 	plainFns  int  // number of plain (non-generator) functions per program (C13)
@@ -355,6 +357,9 @@ func (g *gctx) newVarName(shadowOK bool) string {
 		vars := g.visible(func(v vinfo) bool {
 			if g.prof.keepParams && (v.name == "a" || v.name == "b") {
 				return false // hand-written snippets injected into the program refer to the int parameters
+			}
+			if strings.Contains(v.name, ".") {
+				return false // a field, not a declarable name
 			}
 			return isIntLike(v.typ) && !g.declaredInCurrent(v.name) && v.name != "res"
 		})
@@ -1204,6 +1209,24 @@ func genProgram(t *rapid.T, prof *profile, name string) *Program {
 		np := 1 + g.draw(2, "nparams")
 		g.scope = nil
 		g.push(true)
+		recvExpr := ""
+		if !prof.noMethods && g.pct(25, "method") {
+			// generator method with a value or pointer receiver; the receiver's field is one more variable
+			tn := name + "T"
+			if !p.hasTag("method-generator") {
+				p.Decls = append(p.Decls, &Decl{Kind: "raw", Raw: "type " + tn + " struct{ K int }"})
+			}
+			p.tag("method-generator")
+			if g.pct(50, "ptrrecv") {
+				d.Recv = "t *" + tn
+				recvExpr = "(&" + tn + "{K: 2})."
+				p.tag("pointer-receiver")
+			} else {
+				d.Recv = "t " + tn
+				recvExpr = "(" + tn + "{K: 2})."
+			}
+			g.declare(vinfo{name: "t.K", typ: "int"})
+		}
 		for j := 0; j < np; j++ {
 			pn := string(rune('a' + j))
 			d.Params = append(d.Params, Param{pn, "int"})
@@ -1225,8 +1248,12 @@ func genProgram(t *rapid.T, prof *profile, name string) *Program {
 		}
 		g.pop()
 		p.Decls = append(p.Decls, d)
-		g.gens = append(g.gens, genInfo{name: d.Name, nparam: np, elem: elem})
+		g.gens = append(g.gens, genInfo{name: recvExpr + d.Name, nparam: np, elem: elem})
 		call := "$P" + d.Name + "("
+		if recvExpr != "" {
+			// (T{K: 2}).G  ->  ($PT{K: 2}).G : the type lives in the rendered package
+			call = strings.Replace(recvExpr, name+"T", "$P"+name+"T", 1) + d.Name + "("
+		}
 		for j := 0; j < np; j++ {
 			if j > 0 {
 				call += ", "
